@@ -807,6 +807,7 @@ pub fn c13_directory_level(tier: Tier) -> DirLevel {
         let root = dir.join(format!("t{}", ti));
         materialise(&root, tree);
         let mut first: Option<String> = None;
+        let mut planted = false;
         for order in all_orders(&root, tree) {
             for po in permutations(base_opts.len()) {
                 for pv in permutations(base_vulns.len()) {
@@ -816,15 +817,37 @@ pub fn c13_directory_level(tier: Tier) -> DirLevel {
                         }
                         dl.states += 1;
                         dl.transitions += 4;
-                        solstat::verif_fs::set_order(order.clone());
-                        let r = util::guarded(|| {
-                            let r = root.to_str().unwrap();
-                            let vm = vul::analyze_dir(r, pv.iter().map(|&i| base_vulns[i]).collect());
-                            let om = opt::analyze_dir(r, po.iter().map(|&i| base_opts[i]).collect());
-                            let qm = qa::analyze_dir(r, pq.iter().map(|&i| base_qas[i]).collect());
-                            solstat::report::generation::generate_report(vm, om, qm);
+                        // before the second rendering of a tree a longer, unrelated report is put into the working
+                        // directory: if anything of it survives, that rendering differs from the first one
+                        if first.is_none() {
+                            // the first rendering of a tree starts from a clean working directory
+                            let _ = std::fs::remove_file(cwd.join("solstat_report.md"));
+                            planted = false;
+                        } else if !planted {
+                            planted = true;
+                            let mut stale = String::from("# stale\n");
+                            for k in 0..60000 {
+                                stale.push_str(&format!("- Stale.sol:{}\n", k));
+                            }
+                            std::fs::write(cwd.join("solstat_report.md"), stale).unwrap();
+                        }
+                        // every rendering on a fresh OS thread (stands for a fresh process: thread-local state is empty)
+                        let r = std::thread::scope(|sc| {
+                            sc.spawn(|| {
+                                solstat::verif_fs::set_order(order.clone());
+                                let r = util::guarded(|| {
+                                    let r = root.to_str().unwrap();
+                                    let vm = vul::analyze_dir(r, pv.iter().map(|&i| base_vulns[i]).collect());
+                                    let om = opt::analyze_dir(r, po.iter().map(|&i| base_opts[i]).collect());
+                                    let qm = qa::analyze_dir(r, pq.iter().map(|&i| base_qas[i]).collect());
+                                    solstat::report::generation::generate_report(vm, om, qm);
+                                });
+                                solstat::verif_fs::clear_order();
+                                r
+                            })
+                            .join()
+                            .unwrap()
                         });
-                        solstat::verif_fs::clear_order();
                         let rep = std::fs::read_to_string(cwd.join("solstat_report.md"));
                         match (r, rep) {
                             (Ok(()), Ok(text)) => {
